@@ -631,6 +631,22 @@ func c01Check(c *mc.Ctx, k c01Case, doMem, doStreamW, doStreamR bool) {
 					return
 				}
 			}
+			if len(want) <= 1<<20 {
+				// the recycled stream reader is handed out again, now over ANOTHER stream and over a bufiox.Reader
+				// implementation of the caller's own: it must read that stream
+				pre := cv{K: "i64", I: 0x1122334455667788}
+				in2 := append(cvRef(nil, pre), want...)
+				br2 := thrift.NewBufferReader(customReader{bufiox.NewDefaultReader(NewEnvReader(in2, k.Env))})
+				for i, v := range append([]cv{pre}, vals...) {
+					got, err := cvBufRead(v.K, br2)
+					if err != nil || !cvEq(got, stripLen(v)) {
+						bad("streamread-second-stream:"+v.K, "a recycled BufferReader used over another stream through a caller-implemented bufiox.Reader returned (%v, %v) for value #%d %v", got, err, i, v)
+						failed = true
+						return
+					}
+				}
+				br2.Recycle()
+			}
 		}
 	})
 	if pi != nil && !failed {
